@@ -87,7 +87,9 @@ def run(ctx):
 
 
 def replay(case):
-    if isinstance(case, list) and case and isinstance(case[0], dict):
-        return modsearch.check_module(case, None, "lower")[0]
-    cmd, doc, args = case
-    return modsearch.check_module(case_events(cmd, doc, args), None, "lower")[0]
+    events = case if (isinstance(case, list) and case and isinstance(case[0], dict)) else case_events(*case)
+    for cs in ("lower", "upper", "mixed"):
+        m = modsearch.check_module(events, None, cs)[0]
+        if m:
+            return m
+    return []
